@@ -113,6 +113,11 @@ def programs(draw, max_modules=3, max_tasks=4, kinds=KINDS_BASIC, patterns=True,
                 if flavour == 6 and objects:
                     p['object'] = 'Ob' if OB_MAPPING_ARGS['on'] else draw(st.sampled_from(
                         ['Oa', 'Ob'] + (['Oe', 'Oe'] if PLAIN_OBJECTS['on'] else [])))
+                    if p['object'] == 'Ob' and not OB_MAPPING_ARGS['on'] and draw(st.integers(0, 2)) == 0:
+                        # a default that is an OBJECT (e.g. a tokenizer instance), usually not persisted at default
+                        p['default'] = {'v': {'__object__': 'Ob', 'args': [draw(st.sampled_from([1, 'dk']))], 'kwargs': {}},
+                                        'as_object': True}
+                        p['dpdv'] = draw(st.integers(0, 3)) > 0
                 if flavour in (7, 8):
                     p['dtype'] = draw(st.sampled_from(['int', 'str', 'list']))
                     if draw(st.integers(0, 2)) > 0:
